@@ -46,6 +46,7 @@ struct Episode<'a> {
     n_droppable_stored: usize,
     n_vec: usize,
     n_move: usize,
+    n_thread: usize,
     getters_seen: std::collections::BTreeSet<(usize, usize)>,
 }
 
@@ -65,6 +66,7 @@ fn prop_of(op: &Op) -> &'static str {
         | Op::Unpack { .. }
         | Op::Move { .. } => "C04",
         Op::Convert { .. } | Op::VecConvert { .. } => "C05",
+        Op::ThreadShare { .. } | Op::ThreadSend { .. } => "C14",
         Op::Drop { .. } => "C06",
         Op::Clone { .. } | Op::CloneFrom { .. } | Op::ClonePanic { .. } => "C16",
         Op::SerJson { .. }
@@ -515,7 +517,7 @@ pub fn run_module(drv: &mut dyn Drv, args: &RunArgs, report: &mut Report) {
     }
     static_checks(&meta, report);
     report.functions_total.insert(meta.module.to_owned(), function_total(&meta) as u64);
-    if args.shard == 0 && args.episodes > 0 {
+    if args.shard == 0 && args.episodes > 0 && !args.no_sweeps {
         run_sweeps(drv, &meta, args, report);
     }
     let mut e = args.shard;
@@ -547,6 +549,7 @@ fn new_episode<'a>(drv: &'a mut dyn Drv, meta: &'a Meta, episode: u64) -> Episod
         n_droppable_stored: 0,
         n_vec: 0,
         n_move: 0,
+        n_thread: 0,
         getters_seen: Default::default(),
     }
 }
@@ -770,6 +773,8 @@ fn run_episode(drv: &mut dyn Drv, meta: &Meta, args: &RunArgs, episode: u64, rep
             100
         } else if live.is_empty() {
             0
+        } else if args.threads && rng.chance(1, 4) {
+            23
         } else {
             rng.below(24)
         };
@@ -1267,6 +1272,42 @@ fn run_episode(drv: &mut dyn Drv, meta: &Meta, args: &RunArgs, episode: u64, rep
                 what = "after a serialisation round trip";
                 prop = "C15";
             }
+            // ---- threads: share by reference, send and take back --------------------------------
+            23 if args.threads => {
+                let candidates: Vec<usize> = live.iter().copied().filter(|s| ep.readable_as_a_whole(*s)).collect();
+                if candidates.is_empty() {
+                    continue;
+                }
+                let slot = *rng.pick(&candidates);
+                let m = ep.slots[slot].clone().unwrap();
+                let mask = ep.written_mask(slot);
+                let share = rng.chance(1, 2);
+                let op = if share { Op::ThreadShare { slot, mask } } else { Op::ThreadSend { slot, mask } };
+                let out = match ep.exec(op, report) {
+                    Some(o) => o,
+                    None => break,
+                };
+                ep.n_thread += 1;
+                report.count(if share { "records_shared_between_threads" } else { "records_sent_between_threads" }, 1);
+                for (t, row) in out.rows.iter().enumerate() {
+                    for (k, f) in m.fields.iter().enumerate() {
+                        if let (FState::Val { id, .. }, Some(o)) = (f, row.get(k)) {
+                            if !o.skipped {
+                                let want = (meta.variants[m.variant].fields[k].norm)(*id);
+                                report.count("field_values_compared", 1);
+                                if o.ident != want || !o.alive {
+                                    ep.finding(report, "C14", "field-value-differs-in-another-thread", format!("thread {} field {}: read {:#x}, model {:#x}, alive {}", t, k, o.ident, want, o.alive));
+                                }
+                            }
+                        }
+                    }
+                }
+                if out.rows.is_empty() {
+                    ep.finding(report, "C14", "driver-error", "no observation came back from the threads".to_owned());
+                }
+                what = "after sharing / sending a record between threads";
+                prop = "C14";
+            }
             // ---- vector of records converted in place -----------------------------------------
             22 if nvariants > 1 => {
                 let variant = rng.below(nvariants - 1);
@@ -1415,6 +1456,7 @@ fn run_episode(drv: &mut dyn Drv, meta: &Meta, args: &RunArgs, episode: u64, rep
     mark("C03", ep.n_vec >= 1);
     mark("C15", ep.n_ser >= 1);
     mark("C16", ep.n_clone + ep.n_clone_panic >= 1);
+    mark("C14", ep.n_thread >= 1);
     report.count("episodes.with_conversion", (ep.n_convert > 0) as u64);
     report.count("episodes.with_byte_reuse_conversion", (ep.n_convert_reuse > 0) as u64);
     report.count("episodes.with_clone_panic", (ep.n_clone_panic > 0) as u64);
